@@ -714,9 +714,12 @@ func (session *HermesSession) Run(workingDir string, args []string, logID string
 			// *********************** JAHRESAUSGABE ***************************
 			// *********************** ANNUAL OUTPUT ***************************
 			if g.TAG.Index+1 == OUTDAY {
-				g.AUS[JZ] = g.OUTSUM
-				g.SIC[JZ] = (g.SICKER - math.Abs(g.CAPSUM))
-				g.AUFNA[JZ] = g.AUFNASUM
+				// yearly history (131 slots): a run of more than 130 years must not index past the end
+				if JZ < len(g.AUS) {
+					g.AUS[JZ] = g.OUTSUM
+					g.SIC[JZ] = (g.SICKER - math.Abs(g.CAPSUM))
+					g.AUFNA[JZ] = g.AUFNASUM
+				}
 
 				g.PerY = g.SICKER - math.Abs(g.CAPSUM)
 				g.SWCY1 = SWCY1 / float64(g.JTAG)
